@@ -1188,6 +1188,16 @@ func EvalProgram(progSrc string, files []InputFile, rootSelectors []string, stdo
 	if err != nil {
 		return nil, err
 	}
+	// a root selector that does not parse stops the run before anything is
+	// executed, like a syntax error in the program itself
+	for _, rootSelector := range rootSelectors {
+		selectorLex := NewLexer(rootSelector)
+		selectorParser := NewParser(&selectorLex)
+		if _, err := selectorParser.ParseExpression(); err != nil {
+			return nil, err
+		}
+	}
+
 	ev := NewEvaluator(prog, &lex, stdout)
 	ev.fuzzing = fuzzing
 
